@@ -17,7 +17,9 @@ from harness.common import canon, dec_val, enc_val, ensure_impl_on_path, known_p
 GEN_MODULES = ['excelutil', 'aggregates', 'stats']
 
 ASSUMPTIONS = [
-    "failures are injected through the documented mechanisms only: an unknown function name, or a plugin "
+    "failures are injected through the documented mechanisms only: an unknown function name (NOSUCHFUNC, a made-up "
+    "dotted name, or an Excel function of lib/function_info_data.py that none of ExcelFormula.default_modules "
+    "implements — the pool is computed from the tree under test on every run), or a plugin "
     "module (plugins=) whose function raises on its k-th call; nothing inside pycel is patched",
     "the theorems (coq/Props/C09.v) are about workbooks WITHOUT stored results (in-memory workbooks, as in "
     "every run here), any formula semantics that may fail, any order of evaluation of the new range nodes; "
@@ -79,8 +81,62 @@ def _stored_partial_retry(case):
     return case.get('variant') == 'stored-partial-failing-build'
 
 
+@known_predicate('C09-python-builtin-name')
+def _builtin_name(case):
+    # a function pycel does not implement whose compiled (lower-case) name is a Python builtin — TYPE, COMPLEX,
+    # FILTER among Excel's, STR / REPR / LIST among made-up ones: the name lookup of the compiled lambda finds the
+    # builtin, so the cell evaluates to a Python object (TYPE(1) = <class 'int'>) instead of raising UnknownFunction
+    args = case.get('args') or []
+    return case.get('call') == 'fault' and len(args) >= 3 and args[1] in ('unimplemented', 'unknown-name') \
+        and is_builtin_name(args[2]) and case.get('phase') in ('retry1', 'retry2', 'retry-same')
+
+
+def is_builtin_name(name):
+    import builtins
+    name = name.lower()
+    if name.startswith('_xlfn.'):
+        name = name[6:]
+    return hasattr(builtins, name.replace('.', '_'))
+
+
 def descendants(wb, a):
     return wb.descendants(a)
+
+
+_INTERNAL_NAMES = {'_C_', '_R_', '_REF_', 'pi', 'excel_operator_operand_fixup', 'lambdas'}
+NON_EXCEL = ['NOSUCHFUNC', 'NOSUCH.FUNC', 'MY.OWN.FUNC', 'X.Y', 'STR', 'REPR']     # not Excel's at all
+
+
+def unimplemented_pool():
+    """Names Excel knows (pycel/lib/function_info_data.py) that pycel does not implement: the names a call of
+    the function needs (ExcelFormula.compiled_python) are in none of the default modules.  Computed from the
+    tree under test on every run; returns (dotted, undotted)."""
+    import importlib
+    from pycel.excelformula import ExcelFormula
+    from pycel.lib.function_info_data import function_info
+    mods = [importlib.import_module(m) for m in ExcelFormula.default_modules]
+    dotted, plain = [], []
+    for name in sorted({f.name for f in function_info}):
+        try:
+            needed = [n for n in ExcelFormula(f'={name}(1)').compiled_python[1] if n not in _INTERNAL_NAMES]
+        except Exception:      # noqa: BLE001 — INDIRECT/OFFSET need a cell, YIELD is a Python keyword
+            continue
+        if needed and all(all(getattr(m, n, None) is None for m in mods) for n in needed):
+            (dotted if '.' in name else plain).append(name)
+    return dotted, plain
+
+
+def failing_call(rng, dotted, plain):
+    """(kind, function name as written in the formula) for an unknown-function fault."""
+    r = rng.random()
+    if r < 0.30:
+        return 'unknown', 'NOSUCHFUNC'
+    if r < 0.40:
+        return 'unknown-name', rng.choice(NON_EXCEL)
+    name = rng.choice(dotted) if r < 0.75 else rng.choice(plain)
+    if rng.random() < 0.25:
+        name = '_xlfn.' + name       # the spelling recent Excels store for functions newer than the file format
+    return 'unimplemented', name
 
 
 def run(ctx):
@@ -97,12 +153,20 @@ def run(ctx):
     plugin = importlib.import_module('verif_c09_plugin')
     ctx.extra['rule'] = (
         "single-sheet DAG workbooks of 5-9 cells (C01 generator); every formula cell in turn is replaced by a call "
-        "of an unknown function or of a plugin function that raises (from its first or its second call on), keeping "
-        "its precedents; then: evaluate every dependant twice (must raise a pycel error both times), evaluate every "
+        "of an unknown function (NOSUCHFUNC, a made-up dotted name, or an Excel function pycel does not implement, "
+        "dotted or not, possibly spelled _xlfn.NAME) or of a plugin function that raises (from its first or its "
+        "second call on), keeping its precedents; then, starting from a randomly chosen cell (the failing cell or one "
+        "of its dependants): evaluate the cell and every dependant twice (must raise a pycel error both times, a "
+        "retry on a built target with the same class and message, the failing cell always as on a fresh model), evaluate every "
         "unrelated cell (must equal a fresh compile), overwrite the failing cell with a constant and evaluate the "
         "dependants (must equal a fresh compile with that constant), then write an upstream input; plain and "
         "iterative mode; distinct = distinct (workbook, failing cell, fault kind, mode)")
     nwb = ctx.n(150, 1500)
+    dotted, plain = unimplemented_pool()
+    ctx.extra['unimplemented_pool'] = dict(dotted=len(dotted), undotted=len(plain))
+    if len(dotted) < 20 or len(plain) < 50:
+        ctx.broke('harness: the pool of unimplemented Excel functions is unexpectedly small',
+                  f'dotted={dotted} undotted={len(plain)}')
 
     def fresh(wb, inputs, idx, const_cell=None, const=None):
         w2 = wb
@@ -118,11 +182,15 @@ def run(ctx):
         for fcell in formulas:
             mode = 'iterative' if rng.random() < 0.25 else 'plain'
             # "raises from its second call on" needs a known call count: plain mode only
-            kind = rng.choice(['unknown', 'plugin-first'] + (['plugin-second'] if mode == 'plain' else []))
+            kind = rng.choice(['unknown', 'unknown', 'plugin-first'] + (['plugin-second'] if mode == 'plain' else []))
+            fname = None
+            if kind == 'unknown':
+                # a made-up name, or an Excel function pycel lacks (dotted names compile to norm_dist, …)
+                kind, fname = failing_call(rng, dotted, plain)
             refs = ",".join(f'A{wb.nodes[d]["row"]}' if wb.nodes[d]['kind'] != 'range'
                             else wb.nodes[d]['addr'].split('!')[1] for d in wb.nodes[fcell]['deps']) or '1'
             orig_text = wb.nodes[fcell]['text']
-            wb.nodes[fcell]['text'] = f'=NOSUCHFUNC({refs})' if kind == 'unknown' else f'=BOOM({refs})'
+            wb.nodes[fcell]['text'] = f'={fname}({refs})' if fname else f'=BOOM({refs})'
             desc = [(x['addr'], x.get('value'), x.get('text')) for x in wb.nodes]
             plugin.CALLS.update(n=0, fail_from=1 if kind != 'plugin-second' else 2, fail_until=10 ** 9)
             owb = wb.to_openpyxl()
@@ -133,7 +201,13 @@ def run(ctx):
             faddr = wb.nodes[fcell]['addr']
             deps_of_f = sorted(d for d in descendants(wb, fcell) if wb.nodes[d]['kind'] != 'range')
             unrelated = [i for i in wb.cells() if i != fcell and i not in descendants(wb, fcell)]
-            case = dict(call='fault', workbook=desc, args=[faddr, kind], mode=mode)
+            case = dict(call='fault', workbook=desc, args=[faddr, kind] + ([fname] if fname else []), mode=mode)
+            # which cell is asked for first: the failing cell itself, a dependant, a dependant that reaches it
+            # through a range evaluated while the graph is built
+            targets = [fcell] + deps_of_f
+            if kind != 'plugin-second':
+                rng.shuffle(targets)
+            case['first'] = wb.nodes[targets[0]]['addr']
             ctx.count((k, fcell, kind, mode), kind=f'{mode}:{kind}', sample=case)
             inputs = {i: wb.nodes[i]['value'] for i in wb.inputs()}
             # ---- 1. the failing cell and its dependants raise a pycel error, twice
@@ -159,25 +233,32 @@ def run(ctx):
             if mode == 'iterative':
                 # first use of a cell in iterative mode on a no-data workbook answers None without
                 # running the formula (C06's known finding C06-first-evaluate-none): warm every target up
-                for target in [fcell] + deps_of_f:
+                for target in targets:
                     try:
                         comp.evaluate(wb.nodes[target]['addr'])
                     except Exception:      # noqa: BLE001
                         pass
-            for target in [fcell] + deps_of_f:
+            for target in targets:
+                seen = []
+                built_before = wb.nodes[target]['addr'] in comp.cell_map
                 for attempt in (1, 2):
                     try:
                         r = comp.evaluate(wb.nodes[target]['addr'])
                         ctx.violation(dict(case, phase=f'retry{attempt}', target=wb.nodes[target]['addr']),
                                       "a cell that depends on the failing cell returns a value instead of failing",
                                       impl=canon(r))
-                    except PyCelException:
-                        pass
+                    except PyCelException as exc:
+                        seen.append((type(exc).__name__, str(exc)))
                     except RecursionError:
                         pass
                     except Exception as exc:      # noqa: BLE001
                         ctx.violation(dict(case, phase=f'retry{attempt}', target=wb.nodes[target]['addr']),
                                       f"bare internal exception {type(exc).__name__}: {exc}"[:200])
+                ref = None
+                if target == fcell and mode == 'plain' and fname:
+                    ref = direct_failure(lambda: ExcelCompiler(excel=wb.to_openpyxl(), plugins=('verif_c09_plugin',)),
+                                         faddr)
+                retry_same(ctx, dict(case, target=wb.nodes[target]['addr']), kind, mode, seen, built_before, ref)
             # ---- 2. unrelated cells still evaluate correctly (plain mode; what iterative mode
             #         returns on first use is C06's subject)
             for u in (unrelated if mode == 'plain' else []):
@@ -250,9 +331,132 @@ def run(ctx):
             pass
         except Exception as exc:      # noqa: BLE001
             ctx.violation(case, f"bare internal exception {type(exc).__name__}")
-    correspondence(ctx, ExcelCompiler, plugin)
+    name_sweep(ctx, ExcelCompiler, dotted, plain)
+    correspondence(ctx, ExcelCompiler, plugin, dotted, plain)
     sys.path.remove(ctx.work)
     shutil.rmtree(ctx.work, ignore_errors=True)
+
+
+def direct_failure(build, addr):
+    """What a fresh compiler raises when the failing cell is the first cell asked for."""
+    from pycel.excelutil import PyCelException
+    try:
+        return ('value', canon(build().evaluate(addr)))
+    except PyCelException as exc:
+        return (type(exc).__name__, str(exc))
+    except RecursionError:
+        return None
+    except Exception as exc:      # noqa: BLE001
+        return ('bare', f'{type(exc).__name__}: {exc}')
+
+
+def retry_same(ctx, case, kind, mode, seen, built_before, reference=None):
+    """'A retry behaves the same', for an unknown / unimplemented function (nothing about the failure depends on
+    the attempt), plain mode.  seen = [(error class, message)] of the attempts on one target.
+    * a target whose graph was already built: the second evaluate raises the same pycel error class with the same
+      message as the first (when the first attempt also has to build the graph the failure may legitimately come
+      out of the construction — a new range node is evaluated eagerly — and is wrapped differently);
+    * the failing cell itself (reference given): whenever it is asked for — first, or after its dependants — the
+      error is the one a fresh compiler raises when the cell is asked for first (the name lookup fails before
+      anything is read, so nothing else can differ)."""
+    if mode != 'plain' or kind not in ('unknown', 'unknown-name', 'unimplemented'):
+        return
+    if reference is not None:
+        if reference[0] == 'bare':
+            ctx.violation(dict(case, phase='retry-same', first=case['target']),
+                          f"a fresh model asked for the failing cell first raises the bare internal exception "
+                          f"{reference[1]}"[:200])
+        elif reference[0] != 'value':
+            for n, got in enumerate(seen):
+                if got != reference:
+                    what = "error class" if got[0] != reference[0] else "error message"
+                    ctx.violation(dict(case, phase='retry-same', attempt=n + 1),
+                                  f"the failing cell raises another {what} than on a fresh model asked for it first",
+                                  impl=[got[0], got[1][-300:]], expected=[reference[0], reference[1][-300:]])
+                    break
+    if built_before and len(seen) == 2 and seen[0] != seen[1]:
+        what = "error class" if seen[0][0] != seen[1][0] else "error message"
+        ctx.violation(dict(case, phase='retry-same'),
+                      f"the retry raises another {what} than the first attempt",
+                      impl=[seen[1][0], seen[1][1][-300:]], expected=[seen[0][0], seen[0][1][-300:]])
+
+
+def name_sweep(ctx, ExcelCompiler, dotted, plain):
+    """Every dotted Excel function pycel lacks (NORM.DIST, MODE.SNGL, F.DIST, …), a sample of the undotted ones and
+    the made-up names, each as the failing cell B1 of one fixed small workbook, asked for first directly, through
+    a plain dependant (C1 = B1+1), or through a range that is evaluated while the graph is built (D1 =
+    SUM(B1:B3)); then every other reach twice, the unrelated cell, the repair."""
+    from pycel.excelutil import PyCelException
+    import openpyxl
+    rng = ctx.rng
+    names = [(n, 'unimplemented') for n in dotted] \
+        + [(n, 'unimplemented') for n in rng.sample(plain, min(len(plain), ctx.n(40, 400)))] \
+        + [(n, 'unknown-name') for n in NON_EXCEL]
+    names += [('_xlfn.' + n, 'unimplemented') for n in rng.sample(dotted, min(len(dotted), ctx.n(15, 70)))]
+    ctx.extra['rule'] += (
+        "; name sweep: every Excel function name with a dot that pycel does not implement (computed from "
+        "function_info_data and the default modules), a sample of the undotted ones, _xlfn.-prefixed spellings and "
+        "made-up names, as the failing cell of a 9-cell workbook x the cell asked for first (the failing cell, a "
+        "plain dependant, a dependant through a range built eagerly)")
+    cells = {'A1': 1, 'A2': 2, 'A3': 2, 'B2': 2, 'B3': 3, 'C1': '=B1+1', 'D1': '=SUM(B1:B3)', 'E1': '=SUM(A1:A3)*2'}
+
+    def build(b1):
+        owb = openpyxl.Workbook()
+        ws = owb.active
+        ws.title = wbgen.SHEET
+        for a, v in dict(cells, B1=b1).items():
+            ws[a] = v
+        return ExcelCompiler(excel=owb)
+    want_after = {a: canon(build(7).evaluate(f'{wbgen.SHEET}!{a}')) for a in ('B1', 'C1', 'D1', 'E1')}
+    for name, kind in names:
+        args = rng.choice(['A1', 'A1,0,1,TRUE', 'A1:A3', 'A1:A3,2', ''])
+        text = f'={name}({args})'
+        for first in ('B1', 'C1', 'D1'):
+            comp = build(text)
+            case = dict(call='fault', variant='name-sweep', args=[f'{wbgen.SHEET}!B1', kind, name], formula=text,
+                        first=f'{wbgen.SHEET}!{first}', mode='plain')
+            ctx.count(('sweep', name, args, first), kind=f'sweep:{kind}:{"dotted" if "." in name.replace("_xlfn.", "") else "undotted"}', sample=case)
+            order = [first] + [a for a in ('B1', 'C1', 'D1') if a != first]
+            for target in order:
+                seen = []
+                built_before = f'{wbgen.SHEET}!{target}' in comp.cell_map
+                for attempt in (1, 2):
+                    tcase = dict(case, phase=f'retry{attempt}', target=f'{wbgen.SHEET}!{target}')
+                    try:
+                        r = comp.evaluate(f'{wbgen.SHEET}!{target}')
+                        ctx.violation(tcase, "a cell that depends on the failing cell returns a value instead of "
+                                             "failing", impl=canon(r))
+                    except PyCelException as exc:
+                        seen.append((type(exc).__name__, str(exc)))
+                    except Exception as exc:      # noqa: BLE001
+                        ctx.violation(tcase, f"bare internal exception {type(exc).__name__}: {exc}"[:200])
+                ref = direct_failure(lambda: build(text), f'{wbgen.SHEET}!B1') if target == 'B1' else None
+                retry_same(ctx, dict(case, target=f'{wbgen.SHEET}!{target}'), kind, 'plain', seen, built_before, ref)
+            try:
+                r = canon(comp.evaluate(f'{wbgen.SHEET}!E1'))
+                if r != want_after['E1']:
+                    ctx.violation(dict(case, phase='unrelated', target=f'{wbgen.SHEET}!E1'),
+                                  "a cell that does not depend on the failing cell has a wrong value",
+                                  impl=r, expected=want_after['E1'])
+            except Exception as exc:      # noqa: BLE001
+                ctx.violation(dict(case, phase='unrelated', target=f'{wbgen.SHEET}!E1'),
+                              f"a cell that does not depend on the failing cell raises {type(exc).__name__}")
+            try:
+                comp.set_value(f'{wbgen.SHEET}!B1', 7)
+            except Exception as exc:      # noqa: BLE001
+                ctx.violation(dict(case, phase='repair'), f"set_value on the failing cell raises {type(exc).__name__}")
+                continue
+            for a, want in want_after.items():
+                try:
+                    r = canon(comp.evaluate(f'{wbgen.SHEET}!{a}'))
+                except Exception as exc:      # noqa: BLE001
+                    ctx.violation(dict(case, phase='repair', target=f'{wbgen.SHEET}!{a}'),
+                                  f"after the repair a dependant still raises {type(exc).__name__}")
+                    continue
+                if r != want:
+                    ctx.violation(dict(case, phase='repair', target=f'{wbgen.SHEET}!{a}'),
+                                  "after the repair a dependant differs from a fresh model with the constant",
+                                  impl=r, expected=want)
 
 
 # ------------------------------------------------------------------ correspondence with coq/Model/Fail.v
@@ -305,7 +509,7 @@ def extend(wb, rng):
     return [f]
 
 
-def inject(wb, rng, forced=()):
+def inject(wb, rng, forced=(), names=('NOSUCHFUNC',)):
     """Replace 1-3 formula cells by failing formulas that keep the precedents.
     Returns {node index: fault wire form}."""
     faults = {}
@@ -320,13 +524,14 @@ def inject(wb, rng, forced=()):
             kind = 'plugin'
         if kind == 'unknown-late' and not (node['deps'] and wb.nodes[node['deps'][0]]['kind'] != 'range'):
             kind = 'unknown' if fcell not in forced else 'plugin'
+        fname = 'NOSUCHFUNC' if rng.random() < 0.4 else rng.choice(names)
         if kind == 'unknown':
             # the NameError is raised when the name is looked up: no precedent is read
-            node['text'] = f'=NOSUCHFUNC({",".join(refs) or "1"})'
+            node['text'] = f'={fname}({",".join(refs) or "1"})'
             faults[fcell] = [1, 0]
         elif kind == 'unknown-late':
             # the left operand is evaluated first, then the name lookup fails
-            node['text'] = f'={refs[0]}+NOSUCHFUNC({",".join(refs[1:]) or "1"})'
+            node['text'] = f'={refs[0]}+{fname}({",".join(refs[1:]) or "1"})'
             faults[fcell] = [1, 1]
         else:
             node['text'] = f'=BOOMID({fcell}{"".join("," + r for r in refs)})'
@@ -334,9 +539,12 @@ def inject(wb, rng, forced=()):
     return faults
 
 
-def correspondence(ctx, ExcelCompiler, plugin):
+def correspondence(ctx, ExcelCompiler, plugin, dotted=(), plain=()):
     from pycel.excelutil import PyCelException
     rng = ctx.rng
+    # unknown-function faults are spelled NOSUCHFUNC or as an Excel function pycel lacks (the model's fault is the
+    # same: the name lookup raises); names that Python itself resolves (TYPE, COMPLEX, FILTER) are not failures
+    names = [n for n in list(dotted) * 3 + list(plain) + ['NOSUCH.FUNC'] if not is_builtin_name(n)] or ['NOSUCHFUNC']
     ctx.extra['rule'] += (
         "; correspondence: C01-generator workbooks of 5-10 cells, often extended by a cell that reads two or three ranges and by dependants of it, with 1-3 formula cells replaced by an unknown "
         "function (whole formula, or right operand of +) or by a plugin function identified by its cell; histories "
@@ -352,7 +560,7 @@ def correspondence(ctx, ExcelCompiler, plugin):
         wb = wbgen.gen_workbook(rng, ncells=rng.randrange(5, 11), pool=wbgen.CLEAN_POOL + [0, 1])
         if not wb.formulas():
             continue
-        faults = inject(wb, rng, extend(wb, rng))
+        faults = inject(wb, rng, extend(wb, rng), names)
         plugins = [i for i, f in faults.items() if f == [2]]
         plugin.FAILING.clear()
         plugin.IDCALLS.clear()
@@ -420,6 +628,11 @@ def correspondence(ctx, ExcelCompiler, plugin):
                     nfail += 1
                 except Exception as exc:      # noqa: BLE001
                     res = ('bare ' + type(exc).__name__, None)
+                    # the property itself, whatever the model says: never a bare Python exception
+                    ctx.violation(dict(call='fhistory', k=k, args=[addr],
+                                       workbook=[(x['addr'], x.get('value'), x.get('text')) for x in wb.nodes],
+                                       history=hist + [['eval', addr]], phase='bare-exception'),
+                                  f"evaluate raises the bare internal exception {type(exc).__name__}: {exc}"[:200])
                 ops.append([0, n])
                 hist.append(['eval', addr])
                 impl_trace.append((res[0], res[1], wbgen.snapshot(comp, wb)))
